@@ -56,3 +56,7 @@ func weighted(r *rand.Rand, weights ...int) int {
 	}
 	return len(weights) - 1
 }
+
+func jsonUnmarshalString(s string, v any) error {
+	return json.NewDecoder(bytes.NewReader([]byte(s))).Decode(v)
+}
